@@ -177,7 +177,77 @@ def gen(repo):
         if isinstance(o, type) and issubclass(o, keys.suit_key) and o is not keys.suit_key:
             ks.append(f"({s(n)}, {'None' if o.id is None else 'Some ' + z(o.id)}, {'None' if o.name is None else 'Some ' + s(o.name)})")
     lines.append("Definition all_keys : list (bytes * option Z * option bytes) := [\n  " + ";\n  ".join(ks) + "].\n")
+    lines += envelope_ops(repo, keys)
     return "\n".join(lines)
+
+
+def _calls(fn):
+    """Names of the `x.<name>()` calls made as statements / returns in a function body, in source order."""
+    import ast
+    out = []
+    for node in ast.walk(fn):
+        pass
+    class V(ast.NodeVisitor):
+        def visit_Call(self, c):
+            self.generic_visit(c)
+            if isinstance(c.func, ast.Attribute):
+                out.append((c.lineno, c.col_offset, c.func.attr))
+    V().visit(fn)
+    return [n for _, _, n in sorted(out)]
+
+
+def envelope_ops(repo, keys):
+    """Extract severable_elements and the order of the digest updates before serialisation (fail closed)."""
+    import ast
+    import os
+    from pyg import find_def
+    step = {"update_severable_digests": 1, "update_digest": 2}
+    res = []
+    tree = ast.parse(open(os.path.join(repo, "suit_generator/suit/envelope.py")).read())
+    usd = find_def(tree, "SuitBasicEnvelopeOperationsMixin.update_severable_digests")
+    sev = None
+    for st in usd.body:
+        if isinstance(st, ast.Assign) and ast.unparse(st.targets[0]) == "severable_elements" and isinstance(st.value, ast.List):
+            sev = [getattr(keys, e.id).id for e in st.value.elts]
+    loops = [st for st in usd.body if isinstance(st, ast.For)]
+    if sev is None or len(loops) != 1 or ast.unparse(loops[0].iter) != "severable_elements":
+        raise Fail("update_severable_digests: severable_elements list / loop not recognised")
+    res.append("Definition severable_ids : list Z := [" + "; ".join(z(i) for i in sev) + "].")
+
+    def steps_of(fn, first, last, what):
+        names = [n for n in _calls(fn) if n in step or n in (first, last)]
+        if not names or names[0] != first or names[-1] != last or names.count(first) != 1 or names.count(last) != 1:
+            raise Fail(f"{what}: call sequence {names} not recognised")
+        return "[" + "; ".join(str(step[n]) for n in names[1:-1]) + "]"
+
+    rp = find_def(tree, "SuitBasicEnvelopeOperationsMixin.return_processed_binary_data")
+    # the dict branch: from_obj ... to_cbor
+    br = [st for st in rp.body if isinstance(st, ast.If)]
+    if len(br) != 1 or ast.unparse(br[0].test) != "isinstance(obj, dict)":
+        raise Fail("return_processed_binary_data: shape not recognised")
+    dict_branch = ast.Module(body=br[0].body, type_ignores=[])
+    res.append("Definition steps_processed : list Z := " + steps_of(dict_branch, "from_obj", "to_cbor", "return_processed_binary_data") + ".")
+    io = ast.parse(open(os.path.join(repo, "suit_generator/input_output.py")).read())
+    psd = find_def(io, "InputOutputMixin.prepare_suit_data")
+    res.append("Definition steps_prepare : list Z := " + steps_of(psd, "from_obj", "to_cbor", "prepare_suit_data") + ".")
+    tsf = find_def(io, "InputOutputMixin.to_suit_file")
+    if [n for n in _calls(tsf) if n in ("prepare_suit_data", "write", "open")] != ["open", "write", "prepare_suit_data"] and \
+            [n for n in _calls(tsf) if n in ("prepare_suit_data", "write")] != ["prepare_suit_data", "write"] and \
+            "prepare_suit_data" not in _calls(tsf):
+        raise Fail("to_suit_file does not write prepare_suit_data(data)")
+    sec = ast.parse(open(os.path.join(repo, "suit_generator/suit/security.py")).read())
+    dx = find_def(sec, "SuitDigestExt.from_obj")
+    envb = None
+    for node in ast.walk(dx):
+        if isinstance(node, ast.If) and ast.unparse(node.test) == "'envelope' in digest_dict.keys()":
+            envb = ast.Module(body=node.body, type_ignores=[])
+    if envb is None:
+        raise Fail("SuitDigestExt.from_obj: envelope branch not recognised")
+    names = [n for n in _calls(envb) if n in step or n == "get_manifest_digest"]
+    if not names or names[-1] != "get_manifest_digest" or names.count("get_manifest_digest") != 1:
+        raise Fail(f"SuitDigestExt.from_obj: call sequence {names} not recognised")
+    res.append("Definition steps_digest_ext : list Z := [" + "; ".join(str(step[n]) for n in names[:-1]) + "].")
+    return res + [""]
 
 
 UNITS = {"GenTypes": gen}
